@@ -20,6 +20,7 @@ RULE = ("Hypothesis: histories = op lists (1-30 steps) over the full public alph
         "on was stale, and at least one read of each view. Distinct by case digest.")
 RULE = RULE + " Rounds e-g: note-offs with release velocities, INTERNAL marker messages through add_absolute_message / overwrite_absolute_messages, rests written as two WAITs."
 RULE = RULE + " Round h: zero-tick waits."
+RULE = RULE + " Round i: split followed by in-place edits of every piece."
 ASSUMPTIONS = ["mutators are never interleaved with an open messages_*() generator (documented as illegal)",
                "edits through messages_abs() never change `time`; invalidate_* is only called when the other view is fresh",
                "an operation that raises identically on the object and on its clean replica ends the history as inconclusive"]
@@ -28,7 +29,7 @@ TIERS = {"quick": dict(shards=8, examples=500, alt_ppqn=[480], alt_shards=2),
 
 ABS_OPS = {"add_abs", "cutoff", "merge", "quantise", "qnl", "qan", "it_abs", "read_abs"}
 REL_OPS = {"add_rel", "concatenate", "normalise", "pad", "set_channel", "scale", "scale_down", "transpose", "it_rel", "read_rel"}
-PURE = {"read_abs", "read_rel", "refresh", "inval_abs", "inval_rel", "getters", "copy"}
+PURE = {"read_abs", "read_rel", "refresh", "inval_abs", "inval_rel", "getters", "copy", "split_edit"}
 
 
 @st.composite
